@@ -244,11 +244,12 @@ def ref_identity(op: Any, x: Any) -> list[np.ndarray]:
 
 
 def ref_homothety(op: Any, x: Any) -> list[np.ndarray]:
-    k = float(np.asarray(op.value))
+    k = float(np.asarray(P(op, 'value')))
     return [k * l for l in np_leaves(x)]
 
 
 MODELS: dict[str, tuple[str, Callable[[Any, Any], list[np.ndarray]]]] = {
+    'HomothetyOperator': ('C02', ref_homothety),
     'IndexOperator': ('C12', ref_index),
     'PackOperator': ('C12', ref_pack),
     'MoveAxisOperator': ('C13', ref_moveaxis),
